@@ -1,5 +1,6 @@
 import RpmVerif.Model.Digest
 import RpmVerif.Model.PgpFraming
+import RpmVerif.Gen.EchoPrefix
 /-!
 # L4: `Package::verify_signature` and rpm-rs's own `pgp::Verifier::verify` — model of
 `src/rpm/package.rs` (as it is now, after fix 7d84e5c) and `src/rpm/signature/pgp.rs`
@@ -32,7 +33,11 @@ Control flow, branch by branch as in the code:
    none readable → `NoSignatureFound`; then, in this order and each only if readable: DSA over the header,
    RSA over the header, PGP over header ++ content (`Cursor(header).chain(Cursor(content))`); first rejection returns.
 
-`echo_signature` only logs (`signature[..len.min(5)]` after fix d429c1f) and is not modelled.
+`echo_signature` only logs (`signature[..len.min(5)]` after fix d429c1f); `verifySignatureS` leaves it out.
+`verifySignatureSE` below is the same function WITH the `echo_signature` call in front of every
+`verifier.verify` — slice indexing made explicit (`sliceTo`: an out-of-range bound is a panic) — and returns what a
+Debug logger is handed; `Props/C02.lean: verify_echo_eq` shows that it has the result and log of `verifySignatureS` and
+never panics, so everything proved about the latter holds with the echo calls in.
 
 ## `pgp::Verifier::verify` (the verifier rpm-rs itself ships) — as it is now, after fix c25de51
 
@@ -115,6 +120,66 @@ def verifySignatureS (md5 sha1 sha256 : Bytes → Bytes) (b64 : Bytes → Option
 def verifySignature (md5 sha1 sha256 : Bytes → Bytes) (b64 : Bytes → Option Bytes) (v : Bytes → Bytes → Bool)
     (p : Package) : Out Unit × List Consult :=
   verifySignatureS md5 sha1 sha256 b64 (fun _ => v) p
+
+/-! ### the same with `signature::echo_signature` (`src/rpm/signature/mod.rs`) in place -/
+
+/-- `&signature[..n]`: an upper bound beyond the length panics -/
+def sliceTo (sig : Bytes) (n : Nat) : Out Bytes :=
+  if n ≤ sig.length then .ok (sig.take n) else .panic "slice-end-out-of-range"
+
+/-- `echo_signature(scope, signature)` under a Debug logger: the values formatted — `signature.len()` and
+`&signature[..signature.len().min(N)]`, N scraped from the source (`Gen.echoPrefixLen`) -/
+def echoSignature (sig : Bytes) : Out (Nat × Bytes) := do
+  let pre ← sliceTo sig (min sig.length Gen.echoPrefixLen)
+  pure (sig.length, pre)
+
+/-- `echo_signature(..); verifier.verify(data, sig)?` over a list of steps; `ech` = what was echoed so far -/
+def runConsultsE (v : Verifier) (pre : List Consult) (ech : List (Nat × Bytes)) :
+    List (Bytes × Bytes × Bool) → Out Unit × List Consult × List (Nat × Bytes)
+  | [] => (.ok (), pre, ech)
+  | (data, sig, pgp) :: rest =>
+    match echoSignature sig with
+    | .err c => (.err c, pre, ech)
+    | .panic s => (.panic s, pre, ech)
+    | .ok e =>
+      let c : Consult := ⟨data, sig, v pre data sig, pgp⟩
+      if c.accepted then runConsultsE v (pre ++ [c]) (ech ++ [e]) rest
+      else (.err "verify", pre ++ [c], ech ++ [e])
+
+/-- the OPENPGP loop: `decode_sig(..)?; echo_signature(..); verifier.verify(..)?` -/
+def openpgpLoopE (b64 : Bytes → Option Bytes) (v : Verifier) (hdr : Bytes) (pre : List Consult) (ech : List (Nat × Bytes)) :
+    List Bytes → Out Unit × List Consult × List (Nat × Bytes)
+  | [] => (.ok (), pre, ech)
+  | s :: rest =>
+    match b64 s with
+    | none => (.err "base64", pre, ech)
+    | some sig =>
+      match echoSignature sig with
+      | .err c => (.err c, pre, ech)
+      | .panic s => (.panic s, pre, ech)
+      | .ok e =>
+        let c : Consult := ⟨hdr, sig, v pre hdr sig, false⟩
+        if c.accepted then openpgpLoopE b64 v hdr (pre ++ [c]) (ech ++ [e]) rest
+        else (.err "verify", pre ++ [c], ech ++ [e])
+
+/-- `Package::verify_signature` with the echo calls: (result, consult log, echoed (length, prefix) pairs) -/
+def verifySignatureSE (md5 sha1 sha256 : Bytes → Bytes) (b64 : Bytes → Option Bytes) (v : Verifier) (p : Package) :
+    Out Unit × List Consult × List (Nat × Bytes) :=
+  let hdr := writeHeader p.md.header
+  match verifyDigests md5 sha1 sha256 p with
+  | .err c => (.err c, [], [])
+  | .panic s => (.panic s, [], [])
+  | .ok _ =>
+    match getStringArray p.md.signature SigTag.RPMSIGTAG_OPENPGP with
+    | .ok sigs =>
+      if sigs.isEmpty then (.err "nosig", [], [])
+      else openpgpLoopE b64 v hdr [] [] sigs
+    | _ =>
+      let rsa := getBinary p.md.signature SigTag.RPMSIGTAG_RSA
+      let eddsa := getBinary p.md.signature SigTag.RPMSIGTAG_DSA
+      let v3 := getBinary p.md.signature SigTag.RPMSIGTAG_PGP
+      if !rsa.isOk && !eddsa.isOk && !v3.isOk then (.err "nosig", [], [])
+      else runConsultsE v [] [] (stepOf eddsa hdr false ++ stepOf rsa hdr false ++ stepOf v3 (hdr ++ p.content) true)
 
 /-! ## rpm-rs's `Verifier::verify` -/
 
